@@ -1,0 +1,1 @@
+//! (reserved for hooks of this area; cargo feature `verif_hooks`)
